@@ -23,6 +23,10 @@ def install(I):
                  "type", "any", "all", "print", "round", "repr", "id", "sum", "reversed", "frozenset", "callable",
                  "setattr", "issubclass", "object"):
         t[name] = globals()["b_" + name]
+    t["ord"] = b_ord
+    t["unicodedata.normalize"] = b_unicode_normalize
+    t["dict.fromkeys"] = b_dict_fromkeys
+    t["str.maketrans"] = b_str_maketrans
     t["copy.deepcopy"] = b_deepcopy
     t["copy.copy"] = b_shallowcopy
     for name in ("hypot", "arctan2", "atan2", "cos", "sin", "sqrt", "radians", "ceil", "log2", "floor", "copysign", "tan", "degrees", "exp", "log"):
@@ -338,6 +342,11 @@ def b_abs(I, fv, args, kwargs, node):
     if n is not None:
         if n.p.is_const():
             return Num(Poly.const(abs(n.p.const_value())), n.is_int)
+        sm = n.p.single_monomial()
+        if sm is not None and len(sm[0]) == 1 and sm[0][0][1] == 1:
+            ent = I.apps.get(sm[0][0][0])
+            if ent is not None and ent[0] == "copysign" and len(ent[1]) == 2:      # |c * copysign(a, b)| = |c| * |a|
+                return Num(even_app("abs", ent[1][0]) * Poly.const(abs(sm[1])), False)
         return Num(even_app("abs", n.p), n.is_int)
     return Unk(f"abs({I.tag(args[0])})")
 
@@ -376,7 +385,7 @@ def b_bytes(I, fv, args, kwargs, node):
             return Const(v.v.encode(enc))
         except Exception:
             pass
-    if I.as_str(v) is not None:
+    if I.as_str(v) is not None or (isinstance(v, Unk) and enc):
         return Bytes(v, enc or "?")
     return Unk(f"bytes({I.tag(v)})")
 
@@ -406,6 +415,85 @@ def b_dict(I, fv, args, kwargs, node):
         d.bases = d.bases + tuple(b for b in star.bases if b not in d.bases)
         if star.upper or star.keymap:
             d.keymap = "upper"
+    return I.alloc(d)
+
+
+def b_ord(I, fv, args, kwargs, node):
+    v = I.force(args[0]) if args else NONE
+    s = I.strval(v)
+    if s is not None:
+        if len(s) == 1:
+            return Const(ord(s))
+        I.raise_("TypeError", node, note=f"ord() expected a character, but string of length {len(s)} found")
+    tag = I.tag(v)
+    # an unknown string: ord() raises unless it has exactly one character
+    if not I.decide(f"len1:{tag}", [True, False]):
+        I.raise_("TypeError", node, note="ord() expected a character, but a string of another length found")
+    return Unk(f"ord({tag})", "int")
+
+
+# ASCII characters a *canonical* (NFC/NFD) normalisation can produce from non-ASCII input
+# (KELVIN SIGN -> K, GREEK QUESTION MARK -> ;, GREEK VARIA -> `)
+CANONICAL_ASCII_IMAGES = frozenset("K;`")
+
+
+def b_unicode_normalize(I, fv, args, kwargs, node):
+    """unicodedata.normalize(form, text): the text keeps its provenance; what was 'removed' from it is only
+    still absent if the normalisation cannot re-create it.  Compatibility forms (NFKC/NFKD) fold look-alikes
+    (fullwidth, small, superscript, enclosed forms) onto nearly every printable ASCII character, so only the
+    line breaks stay removed; canonical forms can only re-create K ; `."""
+    form = I.strval(I.force(args[0])) if args else None
+    sv = I.as_str(args[1]) if len(args) > 1 else None
+    if sv is None or form is None:
+        return Unk(f"normalize({', '.join(I.tag(a) for a in args)})", "str")
+    if form.upper() in ("NFC", "NFD"):
+        keep = lambda t: t.removed - CANONICAL_ASCII_IMAGES
+    else:
+        keep = lambda t: t.removed & LINE_BREAKS
+    def walk(v):
+        sv_ = I.as_str(v)
+        if sv_ is None:
+            return v
+        out = []
+        for p_ in sv_.parts:
+            if isinstance(p_, Text):
+                out.append(Text(p_.name, keep(p_), p_.stripped))
+            elif isinstance(p_, Fmt):
+                out.append(Fmt(p_.template, tuple(walk(a) for a in p_.args)))
+            else:
+                out.append(p_)          # literals, rendered numbers and parameter lists are ASCII already
+        r = I.mkstr(out)
+        return Str(r.parts, sv_.rstripped) if isinstance(r, Str) else r
+    return walk(args[1])
+
+
+def b_dict_fromkeys(I, fv, args, kwargs, node):
+    items = _list_items(I, args[0]) if args else None
+    val = args[1] if len(args) > 1 else NONE
+    d = ADict()
+    if items is None:
+        d.open = True
+        d.bases = (f"fromkeys({I.tag(args[0]) if args else ''})",)
+    else:
+        for k in items:
+            I.dict_set(d, k, val)
+    return I.alloc(d)
+
+
+def b_str_maketrans(I, fv, args, kwargs, node):
+    if len(args) == 1:
+        return args[0]
+    a, b = (I.strval(I.force(x)) for x in args[:2])
+    d = ADict()
+    if a is None or b is None or len(a) != len(b):
+        d.open = True
+        d.bases = (f"maketrans({', '.join(I.tag(x) for x in args)})",)
+    else:
+        for x, y in zip(a, b):
+            d.entries[ord(x)] = Const(y)
+        c = I.strval(I.force(args[2])) if len(args) > 2 else ""
+        for x in (c or ""):
+            d.entries[ord(x)] = NONE
     return I.alloc(d)
 
 
@@ -1411,6 +1499,17 @@ def str_method(I, recv, name, args, kwargs, node):
                 return Str((Text(t.name, t.removed, True),), name in ("rstrip", "strip") and not args)
             if name in ("rstrip", "strip") and not args:
                 return Str(sv.parts, True)
+            # stripping given characters from a rendered number: '.' alone is harmless; digits may only be
+            # stripped from the right of a text known to contain a decimal point ('10'.rstrip('0') == '1')
+            ends = ([sv.parts[-1]] if name in ("rstrip", "strip") and sv.parts else []) + ([sv.parts[0]] if name in ("lstrip", "strip") and sv.parts else [])
+            if args and any(isinstance(p_, (NumFmt, StrOf)) for p_ in ends):
+                chars = consts[0] if consts else None
+                if chars is not None and set(chars) <= {"."}:
+                    return sv if isinstance(recv, Str) else recv
+                has_point = I.facts.get(f"in:{Const('.')!r}:{I.force(recv)!r}")
+                if chars is not None and name == "rstrip" and set(chars) <= {"0", "."} and has_point is True:
+                    return sv if isinstance(recv, Str) else recv
+                return Unk(f"{name}({I.tag(recv)}, {chars!r})", "str")
             return sv if isinstance(recv, Str) else recv
         if name == "splitlines":
             return LinesV(sv)
@@ -1455,6 +1554,29 @@ def str_method(I, recv, name, args, kwargs, node):
             return Unk(f"split({I.tag(recv)})", "strlist")
         if name in ("find", "index", "count"):
             return Num(Poly.sym(f"{name}({I.tag(recv)},{', '.join(I.tag(a) for a in args)})"), True)
-        if name == "translate":
+        if name == "translate" and args:
+            # Every known key character is replaced; it counts as removed when no replacement brings it (or, for
+            # line breaks, any line break) back. Keys the analysis does not know remove nothing that is claimed;
+            # a replacement it does not know may bring anything back.
+            tab = I.force(args[0])
+            o = I.deref(tab) if isinstance(tab, Ref) else None
+            if isinstance(o, ADict) and not o.open:
+                repl, out_chars, opaque_value = {}, set(), False
+                for k, v in o.entries.items():
+                    v = I.force(v)
+                    r = "" if (isinstance(v, Const) and v.v is None) else (chr(v.v) if isinstance(v, Const) and isinstance(v.v, int) else I.strval(v))
+                    if r is None:
+                        opaque_value = True
+                        continue
+                    out_chars |= set(r)
+                    if isinstance(k, int):
+                        repl[chr(k)] = r
+                gone = frozenset() if opaque_value else frozenset(c for c in repl if c not in out_chars)
+                if out_chars & LINE_BREAKS:
+                    gone = gone - LINE_BREAKS
+                keep = (lambda t: frozenset()) if opaque_value else (lambda t: t.removed - frozenset(out_chars))
+                exact = all(isinstance(k, int) for k in o.entries) and not opaque_value
+                return I.mkstr(_map_text(I, sv, lambda t: Text(t.name, keep(t) | gone, t.stripped),
+                                         (lambda text: "".join(repl.get(c, c) for c in text)) if exact else (lambda text: text)))
             return Unk(f"translate({I.tag(recv)})", "str")
     return Unk(f"{I.tag(recv)}.{name}({', '.join(I.tag(a) for a in args)})")
